@@ -913,6 +913,13 @@ inline Root gen_game(Tape& t, Report* rep, int maxPlies, const Pos* forcedStart 
 inline Root long_game(Tape& t, Report* rep, int lo, int hi)
 {
     (void)rep;
+    struct ExtendGuard
+    {
+        Tape& t;
+        bool old;
+        explicit ExtendGuard(Tape& tt) : t(tt), old(tt.extend) { t.extend = true; }
+        ~ExtendGuard() { t.extend = old; }
+    } guard(t);
     ref::Pos s = ref::startpos();
     Root best;
     int target = lo + int(t.choose(uint32_t(hi - lo + 1)));
